@@ -5,9 +5,9 @@ Campaigns
         {a,b,c} up to length 4 (thorough: 5) x flags {"", i}, plus special subjects (upper case, newline,
         CR LF, U+2028, digit, underscore, space) x flags {"", i, m, s, ims}; the 4-node patterns as a
         VERIF_SEED-rotated 1/8 slice (thorough: all of them); thorough adds a seeded sample of 5-node patterns.
-  seq3  every sequence of three terms from a pool of 50 small terms (atoms, quantified atoms of every kind,
+  seq3  every sequence of three terms from a pool of 51 small terms (atoms, quantified atoms of every kind,
         optional / repeated / alternating groups, \\1, $, \\b, the four lookarounds) x subjects up to length 4:
-        the interactions between neighbouring terms; VERIF_SEED-rotated 1/20 slice (thorough: all ~120 000).
+        the interactions between neighbouring terms; VERIF_SEED-rotated 1/20 slice (thorough: all ~127 000).
   rand  random ASTs of depth <= 3 (half through the Hypothesis strategy, half through the seeded generator)
         with subjects of length <= 12 over "abcABC019_ \\n" derived from the pattern (random walk + 0-2 edits).
   js    a 5 % sample of all cases again through script-level `new RegExp(p, f).exec(s)` and `/p/f.exec(s)`.
@@ -279,14 +279,14 @@ def exh_task(task):
     st = _Stats()
     for i in range(lo, hi):
         ast, ptext = _PATTERNS[i]
-        fid = guarded(ast, "")
-        if fid:
-            st.excluded[fid] += 1
-            continue
         if sub == "seq3":
             sets = [("", _SUBJ_ABC)]
         else:
             sets = [(f, _SUBJ_ABC) for f in FLAGS_ABC] + [(f, P.SPECIAL_SUBJECTS) for f in FLAGS_SPECIAL]
+        fid = guarded(ast, "")
+        if fid:
+            st.excluded[fid] += sum(len(subs) for _, subs in sets)
+            continue
         pick = (lambda n, i=i: (i * 7919 + n * 31 + _SEED) % 20 == 0)
         compare_pattern(ast, ptext, sets, st, sub, js_pick=pick)
         if st.timeouts >= MAX_TIMEOUTS_PER_TASK:
